@@ -11,7 +11,7 @@ RULE = ('the real bilform_matrix (test == trial) is assembled on random aspect-b
         'the three scaling factors c^T S c of the hierarchical estimator are positive. distinct = distinct (curve, mesh, switch) '
         'matrices + distinct child blocks')
 ASSUMPTIONS = ['meshes with aspect h_x^2/h_t <= 32, up to ~120 elements (quick) / ~500 (thorough)']
-REQUIRED = {t: ['matrix:full', 'matrix:child-block', 'switch:exact', 'switch:quad', 'slabs:several',
+REQUIRED = {t: ['matrix:full', 'matrix:child-block', 'switch:exact', 'switch:quad', 'slabs:several', 'mesh:graded-in-space',
                 'curve:UnitSquare', 'curve:PiSquare', 'curve:LShape', 'curve:Circle', 'curve:UnitInterval']
             for t in ('quick', 'thorough')}
 TIMEOUT = {'quick': 900, 'thorough': 7200}
@@ -24,7 +24,45 @@ def plan(tier, seed):
         for k in range(3 if tier == 'quick' else 8):
             specs.append({'name': 'mesh-%s-%d' % (c, k), 'curve': c, 'rseed': seed * 499 + k,
                           'n_ops': [12, 40, 90][k] if tier == 'quick' else 40 + 55 * k, 'blocks': 30 if tier == 'quick' else 150})
+    # meshes graded in space only (tall, thin elements) towards the seam, a corner or a random point, asymmetrically:
+    # the situation of an adaptive loop resolving a corner singularity; neighbouring entries are strongly coupled there
+    for c in CURVES:
+        for k in range(4 if tier == 'quick' else 16):
+            specs.append({'name': 'graded-%s-%d' % (c, k), 'curve': c, 'rseed': seed * 503 + k, 'graded': k, 'blocks': 12 if tier == 'quick' else 40})
     return specs
+
+
+def graded_mesh(curve, k, rng):
+    from ..oracles.refint import Geo
+    from ..workloads.meshes import LockStep
+    geo = Geo(curve)
+    L = geo.length
+    ls = LockStep({'curve': curve, 'time_grid': [0, 1] if k % 2 == 0 else [0, 0.5, 1]})
+    target = [0.0, L, geo.starts[1] if len(geo.starts) > 2 else L / 2, rng.uniform(0, L)][(k // 2) % 4]
+    lv_left, lv_right = rng.randint(2, 6), rng.randint(2, 6)
+    if k % 4 == 0:
+        lv_left, lv_right = 3 + k // 4 % 3, 4 + k // 4 % 3     # one level coarser on the x >= target side
+
+    def leaf_at(side):
+        best = None
+        for e in ls.mesh.leaf_elements:
+            x0, x1 = e.space_interval
+            if side == 'right':   # the element that starts at the target (through the seam: starts at 0 when target == L)
+                t0 = 0.0 if target >= L else target
+                if x0 <= t0 < x1:
+                    best = e if best is None or e.time_interval[0] < best.time_interval[0] else best
+            else:                 # the element that ends at the target (through the seam: ends at L when target == 0)
+                t1 = L if target <= 0 else target
+                if x0 < t1 <= x1:
+                    best = e if best is None or e.time_interval[0] < best.time_interval[0] else best
+        return best
+    for side, lv in (('right', lv_left), ('left', lv_right)):
+        for _ in range(40):
+            e = leaf_at(side)
+            if e is None or e.level_space >= lv or e.h_x < 1e-3:
+                break
+            ls.bisect(e, 1)
+    return ls, geo
 
 
 def scaled_lambda_min(A):
@@ -53,8 +91,13 @@ def run_shard(spec, acc):
     curve = spec['curve']
     rng = random.Random(spec['rseed'] * 37 + CURVES.index(curve))
     tg = rng.choice([[0, 1], [0, 0.5, 1], [0, 1, 2]])
-    ls, geo = slpairs.make_mesh(curve, spec['rseed'] * 41 + CURVES.index(curve), spec['n_ops'], time_grid=tg,
-                                custom_grid=rng.random() < 0.25)
+    if 'graded' in spec:
+        ls, geo = graded_mesh(curve, spec['graded'], rng)
+        tg = ls.time_grid
+        acc.seen('mesh:graded-in-space')
+    else:
+        ls, geo = slpairs.make_mesh(curve, spec['rseed'] * 41 + CURVES.index(curve), spec['n_ops'], time_grid=tg,
+                                    custom_grid=rng.random() < 0.25)
     elems = list(ls.mesh.leaf_elements)
     wit0 = {'curve': curve, 'mesh': ls.spec, 'history': ls.history, 'n_elements': len(elems)}
     acc.seen('curve:' + curve)
